@@ -230,3 +230,45 @@ def h_build_output(c, how):
     c.ensure("no_raise", out.exc is None, kind="raises")
     if out.exc is None:
         c.ensure("only_builder_frames", (out.value is built) if how == "nonempty" else (isinstance(out.value, list) and len(out.value) == 0))
+
+
+@harness(["C13", "C03", "C02"], "quic.version_negotiation_end_to_end", functions=["tlexport.quic.quic_dissector.extract_quic_packet", QS + ".handle_quic_packet", QS + ".handle_frame",
+                                                                                 QS + ".build_output", QOB + ".__init__", QOB + ".build"], cases=[(False,), (True,)], timeout=20000)
+def h_vn_end_to_end(c, metadata):
+    """COMPOSITION for a Version Negotiation packet, every stage from its real body: dissector -> handle_quic_packet (pseudo frame) ->
+    build_output.  The per-function contracts fix what each stage does with values of the type IT expects; that the value one stage
+    produces (the list of supported versions) is of a type the next stage can consume - with and without -a - is a property of the
+    composition.  Nothing of it may abort the export (C03), and -a must not turn a quiet packet into a failure (C13)."""
+    if c.native:
+        return
+    from contracts.quic_session_c import full_qsession
+    isserver = c.bool("isserver")
+    b0 = c.int("first_byte", 128, 255)
+    dcid, scid = c.bytes("dcid", max_len=20), c.bytes("scid", max_len=20)
+    versions = c.bytes("supported_versions", length=8)
+    datagram = cat(c.bytes_of([b0]), const(b"\x00\x00\x00\x00"), c.bytes_of([len_(dcid)]), dcid, c.bytes_of([len_(scid)]), scid, versions)
+    ts = c.int("timestamp", 0, 2 ** 40)
+    pkt = c.obj("tlexport.packet.Packet", tls_data=datagram, timestamp=ts)
+    out = c.call("tlexport.quic.quic_dissector.extract_quic_packet", in_packet=pkt, isserver=isserver, guessed_dcid=c.bytes("guessed_dcid", max_len=20), keys={}, ciphersuite=None)
+    c.ensure("dissector.no_raise", out.exc is None, kind="raises")
+    if out.exc is not None:
+        return
+    pkts, _ = out.value
+    c.ensure("dissector.one_packet", len(pkts) == 1)
+    if len(pkts) != 1:
+        return
+    s = full_qsession(c, packet_buffer_quic=list(pkts), output_buffer=[])
+    out = c.method(s, "handle_quic_packet")
+    c.ensure("handle_quic_packet.no_raise", out.exc is None, kind="raises")
+    if out.exc is not None:
+        return
+    out = c.method(s, "build_output", metadata)
+    c.ensure("build_output.no_raise", out.exc is None, kind="raises")
+    if out.exc is not None:
+        return
+    res = out.value
+    c.ensure("exported_items_are_frame_timestamp_pairs_of_this_datagram", isinstance(res, list) and all(isinstance(x, tuple) and len(x) == 2 and c.same_object(x[1], ts) for x in res))
+    c.cover("returned")
+
+
+h_vn_end_to_end.must_cover = ["returned"]
